@@ -23,7 +23,7 @@ RULE = ("each generated scenario is started under K registration permutations x 
 
 
 def run(ctx):
-    static_ok = vlib.static_obligations(ctx)
+    static_ok = vlib.static_obligations(ctx, extra_targets=["Corr/WiringFacts.vo"])
     K, R = (4, 2) if ctx.quick() else (8, 3)
     defs = {"M": "mismatches", "V": "violations", "NT": "count_nontrivial"}
 
